@@ -19,7 +19,8 @@ RULE = ("a pool of PELs per shard (well-formed of all kinds, damaged, with shipp
         "(2..60 operations, repeats, poison-then-victim patterns) runs in its own forked child and after every operation the "
         "result is compared with the fresh reference, scanned for unique tokens of other PELs, and the four import caches are "
         "checked against per-module fresh-import verdicts.  Violating histories are shrunk by delta debugging (re-forking "
-        "sub-histories).  CLI: -a and -a -r arrays equal the per-file fresh documents.  Non-trivial: history length >= 2; "
+        "sub-histories).  Context families (drawer version, creator, SRC type, chip model, section placement) are dealt out by "
+        "shard number.  CLI: -a and -a -r arrays equal the per-file fresh documents.  Non-trivial: history length >= 2; "
         "distinct = operation sequence.")
 ASSUMPTIONS = ["stderr is not compared (one-time notices are legitimately first-decode only)",
                "fixture plugins are pure functions of their arguments, so any history dependence is the decoder's"]
